@@ -562,6 +562,8 @@ static int restore_interior_string (char **val, svalue_t * sv) {
               {
                 while ((c = *cp++) != '"')
                   {
+                    if (c == '\0')
+                      return ROB_STRING_ERROR;	/* no closing quote: do not run past the end of the text */
                     if (c == '\\')
                       {
                         if (!(*newp++ = *cp++))
@@ -1202,6 +1204,8 @@ int restore_string (char *val, svalue_t * sv) {
               {
                 while ((c = *cp++) != '"')
                   {
+                    if (c == '\0')
+                      return ROB_STRING_ERROR;	/* no closing quote: do not run past the end of the text */
                     if (c == '\\')
                       {
                         if (!(*newp++ = *cp++))
